@@ -14,6 +14,8 @@ const N_POS: u64 = 4;
 const N_FRONT: u64 = 11;
 /// 0: the limit is set right before the frame under test; 1: it is set on the new decoder, before the history
 const N_ORDER: u64 = 2;
+/// 0: FrameDecoder::new(); 1: FrameDecoder::default() - the same decoder by its documentation
+const N_CTOR: u64 = 2;
 /// largest accepted window for which a path that reserves the window eagerly is executed
 const EAGER_CAP: u64 = 64 << 20;
 
@@ -163,7 +165,8 @@ fn item(idx: u64, ctx: &mut CaseCtx, seed: u64) -> CaseResult {
     let pos = (idx / N_FRONT) % N_POS;
     let lclass = (idx / N_FRONT / N_POS) % N_LIMITS;
     let order = (idx / N_FRONT / N_POS / N_LIMITS) % N_ORDER;
-    let h = idx / N_FRONT / N_POS / N_LIMITS / N_ORDER;
+    let ctor = (idx / N_FRONT / N_POS / N_LIMITS / N_ORDER) % N_CTOR;
+    let h = idx / N_FRONT / N_POS / N_LIMITS / N_ORDER / N_CTOR;
     let (frame, w, single) = header_variant(h, seed);
     let mut limit = limit_value(lclass, w, seed, idx);
     // fronts without a decoder handle: no history possible
@@ -187,15 +190,28 @@ fn item(idx: u64, ctx: &mut CaseCtx, seed: u64) -> CaseResult {
         ctx.weight = 1;
         return Ok(());
     }
-    let mut dec = FrameDecoder::new();
-    if order == 1 {
+    if ctor == 1 && (front == 5 || front == 6 || lclass != 7) {
+        // the constructor matters only while nobody has set a limit: the second constructor is
+        // run with the limit class "default" only, where no set_max_window_size call happens at all
+        ctx.weight = 1;
+        return Ok(());
+    }
+    let untouched_default = lclass == 7;
+    let mut dec = if ctor == 1 { FrameDecoder::default() } else { FrameDecoder::new() };
+    if ctor == 1 {
+        ctx.feat("constructor:Default::default()");
+    }
+    if order == 1 && !(untouched_default && ctor == 1) {
         // the caller configures the decoder once; the limit has to survive every earlier frame
         dec.set_max_window_size(limit);
     }
     history(&mut dec, pos);
     if front != 5 && front != 6 {
-        if order == 0 {
+        if order == 0 && !(untouched_default && ctor == 1) {
             dec.set_max_window_size(limit);
+        }
+        if untouched_default && ctor == 1 {
+            ensure!(dec.max_window_size() == effective, "default_limit_wrong", "a decoder from Default::default() reports max_window_size() = {}, the documented default is {effective}", dec.max_window_size());
         }
         ensure!(dec.max_window_size() == effective, "limit_not_clamped", "set_max_window_size({limit}) -> max_window_size() = {}, expected {effective}", dec.max_window_size());
     }
@@ -270,7 +286,7 @@ pub fn run(eng: &Engine) {
     eng.assume("the allocation clause is checked for windows >= 64 KiB (below that a window-sized request cannot be told from ordinary scratch)");
     let seed = eng.seed;
     let headers = 256 + fcs_values(seed).len() as u64 + N_BOTH;
-    let total = headers * N_ORDER * N_LIMITS * N_POS * N_FRONT;
+    let total = headers * N_CTOR * N_ORDER * N_LIMITS * N_POS * N_FRONT;
     eng.run_enumerated("window_limit_product", "header variant x limit class x position x front end", total, 512, move |i, c| item(i, c, seed));
     // single-segment sizes and random limits are sampled, the descriptor product is complete
     eng.set_extra("exhaustive_note", json!("all 256 window descriptors x 13 fixed limit classes x 2 orders x 4 positions x 11 front ends enumerated completely; content-size values and the random limit class are sampled"));
